@@ -349,6 +349,7 @@ func runC03(c *Ctx, r *Report) {
 	c03r3(c, r)
 	c03r4(c, r)
 	c03r5(c, r)
+	c03r6(c, r)
 	c05r9(c, r) // the recurrence reads only cells of this call: boundary cells of shifted windows are initialised
 	c02r5(c, r) // 'over the whole line': the pre-filter window must not cut off upper-case occurrences
 	c13r3(c, r) // two scans must never fill the same score matrices at once
